@@ -1,13 +1,18 @@
 """C10 — Incomplete exploration is always reported.
 
-Obligations: translators T-jumpi (decision part of SEVM.jumpi) and T-runtest (which logs/warnings
-run_test, setup and run_target_function report), Props/C10.vo, lint.
+Obligations: translators T-jumpi (decision part of SEVM.jumpi), T-runtest (which logs/warnings
+run_test, setup and run_target_function report), T-cutwarn (the --depth cut of SEVM.run and the text of its
+warning) and T-logfilter (the de-duplicating logger), Props/C10.vo, lint.
 Tie X-C10 at L3: generated counted-loop programs (concrete vs symbolic trip count) x --loop {1,2,4},
 --depth, --width, in a regular test, in setUp(Symbolic) and inside an invariant target, run through
 `python -m halmos` on fabricated forge projects.  Ground truth = the extracted reference interpreter:
 whenever some input's concrete execution reaches the planted Panic(1) (i.e. an execution halmos must
 have followed to its end) the output must contain [FAIL]/[ERROR]/[TIMEOUT] or a LOOP_BOUND /
 'incomplete execution' warning; loops with a concrete condition must never be reported as cut.
+Runs with several tests (overloads, a second contract with the same signature) are judged PER TEST: a
+report counts for a test when it names it or was printed while it was running (c10_lib.attribute).
+Paths stopped by an unsupported feature (symbolic memory offset / size) in the test body, in a callee
+(CALL / STATICCALL / DELEGATECALL) and in a constructor must give a non-PASS status.
 """
 import json
 import time
@@ -17,13 +22,15 @@ from harness import common, l3
 from harness.common import Model
 
 PID = "C10"
-TRANSLATORS = ["T-jumpi", "T-runtest"]
+TRANSLATORS = ["T-jumpi", "T-runtest", "T-cutwarn", "T-logfilter"]
 
 KNOWN = common.known_for("C10")  # entries live in /verif/known_findings.json
 
 ASSUMPTIONS = [
     "the decision-level theorems are about the function regenerated from SEVM.jumpi; that the interpreter loop applies it at every JUMPI and keeps the visit counters per path is covered by the L3 tie only",
     "the reference interpreter (coq/Spec/Evm.v, extracted) is the EVM oracle",
+    "runs with several tests: a report line counts for a test when it names the test's full signature, or names no test of the contract and was printed between the previous result line of the contract and this test's result line (stdout and stderr merged, unbuffered)",
+    "the report model abstracts message texts by the tuple of interpolated values (texts of different tests differ iff these differ); that SEVM.run emits the warning once per abandoned state and that one process runs all contracts is observed at L3",
     "the extracted model and driver are faithful to the Coq definitions (extraction is trusted)",
 ]
 
@@ -44,18 +51,32 @@ def worker(task):
     t0 = time.time()
     b = G.build(task)
     with l3.Project(b["contracts"], base=task.get("_base")) as p:
-        r = p.run(task["options"], timeout=task.get("timeout", 120))
-    return {"seconds": round(time.time() - t0, 1), "brief": r.brief(), "warnings": r.warnings, "out": r.out[-3000:], "err": r.err[-2500:]}
+        if "units" in b:
+            r = G.run_merged(p, task["options"], timeout=task.get("timeout", 120))
+            layout = {}
+            for u in b["units"]:
+                layout.setdefault(u["contract"], []).append(u["sig"])
+            units = G.attribute(r.out, layout)
+            order = [ln.strip() for ln in r.out.splitlines() if "Running " in ln or l3.STATUS_RE.match(ln.strip())]
+        else:
+            r = p.run(task["options"], timeout=task.get("timeout", 120))
+            units, order = None, None
+    squeeze = lambda t: "\n".join(x.rstrip() for x in t.splitlines() if x.strip())  # noqa: E731  (rich pads every log line to COLUMNS)
+    return {"seconds": round(time.time() - t0, 1), "brief": r.brief(), "warnings": r.warnings, "out": squeeze(r.out)[-3000:],
+            "err": squeeze(r.err)[-2500:], "units": units, "order": order}
 
 
 # ----------------------------------------------------------------------------- ground truth
 
-def truth_of(case, b):
-    """-> list of (scenario description, outcome of the last transaction) on the reference interpreter"""
+def truth_of(case, b, unit=None):
+    """-> list of (scenario description, outcome of the last transaction) on the reference interpreter
+    (unit: one test of a several-tests run: its own contract runtime and scenarios)"""
     from harness import refevm
 
     t = b["contracts"][0]
-    acc0 = l3.ref_accounts(t.runtime)
+    acc0 = l3.ref_accounts(bytes.fromhex(unit["runtime"]) if unit else t.runtime)
+    if unit:
+        b = {**b, "truth": unit["truth"]}
     out = []
     if b["truth"] == "invariant":
         K = b["K"]
@@ -90,6 +111,64 @@ def truth_of(case, b):
 REPORTED = ("loop_bound", "incomplete_depth", "incomplete_width")
 
 
+def eval_units(rep, case, bb, val, depth_calls):
+    """a run with several tests: each test is judged on its own (reports attributed by c10_lib.attribute)"""
+    units = val["units"] or {}
+    order = val.get("order") or []
+    # execution order of the tests: [(contract, sig)] from the `Running ... :C` headers and the result lines
+    seq, cur = [], None
+    for ln in order:
+        if "Running " in ln:
+            cur = ln.rsplit(":", 1)[-1].strip()
+        else:
+            ms = l3.STATUS_RE.match(ln)
+            if ms and cur:
+                seq.append((cur, ms.group(2)))
+    ids = {}
+    runs = []
+    for u in bb["units"]:
+        key = f"{u['contract']}:{u['sig']}"
+        got = units.get(key) or {}
+        status, warns = got.get("status"), got.get("warnings") or []
+        truth = truth_of(case, bb, unit=u)
+        reaching = [d for d, o in truth if str(o).startswith("panic")]
+        earlier = [c for c, s in seq[:seq.index((u["contract"], u["sig"]))] if s == u["sig"] and c != u["contract"]] if (u["contract"], u["sig"]) in seq else []
+        variant = "same-signature-ran-earlier-in-another-contract" if earlier else "first-run-of-this-signature"
+        full = {**case, "unit": key, "halmos": {"status": status, "paths": got.get("paths"), "warnings": warns, "execution_order": seq}, "truth": truth,
+                "output": val["out"][-1500:], "runtime": u["runtime"]}
+        rep.case({**case, "unit": key}, nontrivial=bool(reaching))
+        rep.count("family", case["family"])
+        rep.count("outcome", f"{case['family']}/{variant}:{status}:{'+'.join(w for w in warns if w in REPORTED) or 'no-incompleteness-warning'}:{'reachable' if reaching else 'unreachable'}")
+        if status is None:
+            rep.fail("broken-tie", f"halmos printed no verdict for {key} with {case['options']}: {val['out'][-400:]}", case=full)
+            continue
+        reported = any(w in warns for w in REPORTED)
+        if status == "PASS" and reaching and not reported:
+            fail_or_known(rep, "failing-input",
+                          f"{case['family']} {case['params']} with {' '.join(case['options'])}: [PASS] {key} and no LOOP_BOUND / incomplete-execution report names this test or was printed while it ran ({variant}), but `{reaching[0]}` reaches Panic(1) on the reference interpreter",
+                          case=full, sig={"kind": "incomplete-not-reported", "family": case["family"], "variant": variant, "options": " ".join(case["options"])})
+    # model side: the session of --depth warnings through the de-duplicating logger, in execution order
+    if case["family"] == "depth_multi" and seq and all(f"{c}:{s}" in units for c, s in seq):
+        args, want = [int(case["options"][case["options"].index("--depth") + 1])], []
+        for c, s in seq:
+            got = units[f"{c}:{s}"]
+            name = s.split("(")[0]
+            cuts = max(0, 2 - (got.get("paths") or 0))   # every test of this family has 2 paths: those not completed were abandoned
+            args += [ids.setdefault(("c", c), len(ids) + 1), ids.setdefault(("n", name), len(ids) + 1), ids.setdefault(("s", s), len(ids) + 1),
+                     l3.sel_int(s), cuts]
+            want.append(1 if "incomplete_depth" in got["warnings"] else 0)
+        depth_calls.append((("c10_depth_session", args), want, {**case, "execution_order": seq, "units": units}))
+
+
+def stuck_model_call(p):
+    """leaves predicted for the `stuck` family -> c03_run_test arguments: one normal path (x == 77) and one path
+    stopped by the internal error: at the top level the root carries the HalmosException; in a callee / constructor
+    the root has no error, its sub-call has, and the output data is None"""
+    normal = [0, 0, 1, 0, 1, 1]
+    stuck = [4, 0, 0, 0, 1, 1] if p["where"] == "top" else [0, 1, 4, 0, 0, 0, 1, 1]
+    return ("c03_run_test", [0, 0, 0, 1, 1, 2, *normal, *stuck])
+
+
 def run(rep, tier):
     b = common.build_property(PID, TRANSLATORS)
     common.standard_obligations(rep, PID, b)
@@ -101,6 +180,13 @@ def run(rep, tier):
             rep.fail("broken-tie", "extracted model driver does not build: " + log[-400:], case={})
         else:
             m = Model(exe)
+        exe2, log2 = common.build_driver("C10")  # the report model (Model/ReportModel.v): Extract/ExC10.v
+        rep.obligation("extraction of Model/ReportModel.v entry points + OCaml driver build", exe2 is not None, "" if exe2 else log2[-800:])
+        if exe2 is None:
+            rep.fail("broken-tie", "extracted report model driver does not build: " + log2[-400:], case={})
+        m2 = Model(exe2) if exe2 is not None else None
+    else:
+        m2 = None
     from harness import refevm
 
     refevm.driver()
@@ -108,10 +194,11 @@ def run(rep, tier):
     cases = G.gen_cases(r, tier)
     r.shuffle(cases)
     # invariant and setUp cases first (they carry the runner-level statements), then the rest within the budget
-    cases.sort(key=lambda c: c["family"] not in ("invariant", "setup"))
+    cases.sort(key=lambda c: c["family"] not in ("invariant", "setup", "depth_multi", "stuck", "stuck_setup"))
     res = l3.run_pool(worker, cases, timeout=240, total_timeout=420 if tier == "quick" else 1100)
     rep.coverage["l3_tasks"] = [[c["family"], json.dumps(c["params"]), " ".join(c["options"]), st, (v or {}).get("seconds") if st == "ok" else None] for c, (st, v) in zip(cases, res)]
     model_calls, model_expect = [], []
+    depth_calls, stuck_calls, setup_calls = [], [], []
     for case, (st, val) in zip(cases, res):
         rep.count("l3_run", st)
         if st != "ok":
@@ -119,6 +206,9 @@ def run(rep, tier):
                 rep.fail("broken-tie", f"L3 worker crashed: {str(val)[-600:]}", case=case)
             continue
         bb = G.build(case)
+        if "units" in bb:
+            eval_units(rep, case, bb, val, depth_calls)
+            continue
         truth = truth_of(case, bb)
         sig = bb["test"]
         tests = val["brief"]["tests"]
@@ -132,8 +222,30 @@ def run(rep, tier):
         rep.count("family", case["family"])
         rep.count("options", " ".join(case["options"]))
         rep.count("outcome", f"{case['family']}:{status}:{'+'.join(w for w in warns if w in REPORTED) or 'no-incompleteness-warning'}:{'reachable' if reaching else 'unreachable'}")
+        if case["family"] == "stuck_setup":
+            text = val["out"] + val["err"]
+            seen = 0 if status is not None else 2 if "Multiple paths were found" in text else 1 if "No successful path found" in text else -1
+            # setup_select on the single explored path: no error + stuck (sub-call) / error + stuck (top level)
+            setup_calls.append((("c03_setup", [1, 2 if case["params"]["where"] == "call" else 3, 1]), seen, full))
+            if status == "PASS" and reaching and "internal_error" not in warns:
+                fail_or_known(rep, "failing-input",
+                              f"stuck_setup {case['params']}: [PASS] {sig} without any internal-error report although the only path of setUpSymbolic was stopped by an unsupported feature ({case['params']['kind']} in {case['params']['where']}) and `{reaching[0]}` ends in Panic(1) on the reference interpreter",
+                              case=full, sig={"kind": "stuck-path-pass", "family": "stuck_setup", "where": case["params"]["where"]})
+            elif status is None and seen == -1:
+                rep.fail("broken-tie", f"stuck_setup {case['params']}: no verdict and no setUp failure message: {text[-400:]}", case=full)
+            continue
         if status is None and case["family"] != "setup":
             rep.fail("broken-tie", f"halmos printed no verdict for {sig} with {case['options']}: {val['out'][-300:]} {val['err'][-300:]}", case=full)
+            continue
+        if case["family"] == "stuck":
+            # a path that halmos could not continue: the verdict must not be PASS (whatever is printed besides)
+            if status == "PASS" and reaching:
+                fail_or_known(rep, "failing-input",
+                              f"stuck {case['params']}: [PASS] {sig} although the path `{reaching[0]}` (Panic(1) on the reference interpreter) was stopped by an unsupported feature ({case['params']['kind']} in {case['params']['where']}); warnings printed: {warns}",
+                              case=full, sig={"kind": "stuck-path-pass", "family": "stuck", "where": case["params"]["where"]})
+                continue
+            if rec.get("exitcode") is not None:
+                stuck_calls.append((stuck_model_call(case["params"]), rec["exitcode"], full))
             continue
         reported = any(w in warns for w in REPORTED)
         # (1) an execution that reaches the planted failure exists, halmos says PASS: it must have said why it did not see it
@@ -169,7 +281,19 @@ def run(rep, tier):
         for c, v in inv:
             K, L = c["params"]["K"], int(c["options"][1])
             cut = True   # the trip count is an unbounded symbolic argument: the loop is always cut at --loop
-            if (v["brief"]["tests"].get(G.build(c)["test"]) or {}).get("status") is None:
+            ran = (v["brief"]["tests"].get(G.build(c)["test"]) or {}).get("status") is not None
+            if c["family"] == "setup":
+                # setup(): which path is handed to the tests.  Success paths of setUpSymbolic: `n > 100` returns; the loop
+                # reaches i == K (and stores) only when --loop allows K iterations; the other paths revert.
+                n_ok = 1 + (1 if L >= K else 0)
+                errs = [0] * n_ok + [1, 1]
+                [ms] = m.batch([("c03_setup", [len(errs), *errs, *([1] * len(errs))])])
+                text = v["out"] + v["err"]
+                seen = 0 if ran else 2 if "Multiple paths were found" in text else 1 if "No successful path found" in text else -1
+                rep.count("runner_model", f"setup:success_paths={n_ok}:model={ms[0] if ms else None}:halmos={seen}")
+                if ms is None or ms[0] != seen:
+                    rep.fail("broken-tie", f"setup K={K} --loop {L}: setup_select model says {ms} (0 one path / 1 none / 2 multiple) for {n_ok} feasible success paths, halmos: {seen}", case={**c, "output": text[-800:]})
+            if not ran:
                 continue   # setUp failed (e.g. two feasible success paths): no test was run
             if c["family"] == "invariant":
                 call = ("c10_loop_warned", [0, 0, 1 if cut else 0])          # the target transaction hit the bound
@@ -180,15 +304,34 @@ def run(rep, tier):
             rep.count("runner_model", f"{c['family']}:cut={cut}:model={mo}:halmos={got}")
             if mo != [got]:
                 rep.fail("broken-tie", f"{c['family']} K={K} --loop {L}: runner model says LOOP_BOUND warned = {mo}, halmos printed {got}", case={**c, "warnings": v["warnings"]})
+        # the run_test model on the leaves predicted for a path stopped by an internal error
+        if stuck_calls:
+            outs = m.batch([c for c, _, _ in stuck_calls])
+            for (c, real, full), mo in zip(stuck_calls, outs):
+                rep.count("runner_model", f"stuck:{full['params']['where']}:model_exit={mo[0] if mo else None}:halmos_exit={real}")
+                if mo is None or mo[0] != real:
+                    rep.fail("broken-tie", f"stuck {full['params']}: run_test model predicts exit code {mo[0] if mo else None} for [normal path; path stopped by an internal error], halmos returned {real}", case=full)
+        if setup_calls:
+            outs = m.batch([c for c, _, _ in setup_calls])
+            for (c, seen, full), mo in zip(setup_calls, outs):
+                rep.count("runner_model", f"stuck_setup:{full['params']['where']}:model={mo[0] if mo else None}:halmos={seen}")
+                if mo is None or mo[0] != seen:
+                    rep.fail("broken-tie", f"stuck_setup {full['params']}: setup_select model says {mo} (0 a path is selected / 1 none / 2 multiple), halmos: {seen}", case=full)
+    if m2 is not None and depth_calls:
+        outs = m2.batch([c for c, _, _ in depth_calls])
+        for (c, want, full), mo in zip(depth_calls, outs):
+            rep.count("report_model", f"depth session: model={mo} halmos={want}")
+            if mo != want:
+                rep.fail("broken-tie", f"--depth warnings per test in execution order {full['execution_order']}: report model (de-duplicating logger, regenerated message key) says {mo}, halmos printed {want}", case=full)
     rep.coverage["traces_validated_against_impl"] = sum(1 for st, _ in res if st == "ok")
     rep.coverage["known_findings_declared"] = [k["id"] for k in KNOWN]
     return rep.finish(
-        checker_cmd="make -C coq Props/C10.vo (coq_makefile, coqc 8.16.1) after regenerating coq/Gen/GenJumpi.v from src/halmos/sevm.py and coq/Gen/GenRunTest.v from src/halmos/__main__.py",
+        checker_cmd="make -C coq Props/C10.vo (coq_makefile, coqc 8.16.1) after regenerating coq/Gen/GenJumpi.v and GenCutWarn.v from src/halmos/sevm.py, GenRunTest.v from src/halmos/__main__.py and GenLogFilter.v from src/halmos/logs.py",
         trusted_base=common.TRUSTED_BASE_COMMON + ["the fabricated forge artifacts + stub forge (harness/l3.py) and the extracted reference interpreter coq/Spec/Evm.v as EVM oracle"],
         assumptions=ASSUMPTIONS,
-        rule="cases = (family, parameters, halmos options): counted loops in three syntactic forms (while / negated exit test / count-down) with trip count const n, pinned by a require, the argument, arg & 7, arg % 6; planted Panic(1) when the counter equals K below/at/above --loop in {1,2,4}; a 20-iteration concrete loop under --depth; 2^k-path branch ladders under --width; setUpSymbolic with a loop; an invariant target with a loop; "
+        rule="cases = (family, parameters, halmos options): counted loops in three syntactic forms (while / negated exit test / count-down) with trip count const n, pinned by a require, the argument, arg & 7, arg % 6; planted Panic(1) when the counter equals K below/at/above --loop in {1,2,4}; a 20-iteration concrete loop under --depth; 2^k-path branch ladders under --width; setUpSymbolic with a loop; an invariant target with a loop; several tests with the same two-path body under --depth in one run (overloads of one name, another name, the same signature in a second contract), judged per test; a path stopped by an unsupported feature (symbolic memory offset / keccak size) in the test body, in a CALL / STATICCALL / DELEGATECALL callee, in a constructor, and in setUp (body / callee); "
              "non-trivial = some concrete execution reaches the planted failure on the reference interpreter (or the loop is concrete); distinct by hash of the case",
-        partial="the L3 tie observes incompleteness only through the planted failure; theorem C10_invariant_target_flags_refuted documents F7; --depth cuts inside setUp / targets are observed at L3 only",
+        partial="the L3 tie observes incompleteness only through the planted failure; --depth cuts inside setUp / targets are observed at L3 only; theorems C10_depth_cut_reported_across_contracts_refuted and C10_setup_stuck_path_selected_refuted document the two known findings",
     )
 
 
